@@ -28,13 +28,20 @@ type c15Proc struct {
 	id                           string
 	l                            *c15Log
 	starts, ends, shuts, flushes int
+	yield                        bool // a scheduling point inside every call (a processor that synchronises)
 }
 
 func (p *c15Proc) OnStart(_ context.Context, s ReadWriteSpan) {
 	p.starts++
 	p.l.ev = append(p.l.ev, p.id+".OnStart")
 }
-func (p *c15Proc) OnEnd(ReadOnlySpan) { p.ends++; p.l.ev = append(p.l.ev, p.id+".OnEnd") }
+func (p *c15Proc) OnEnd(ReadOnlySpan) {
+	if p.yield {
+		sched.Yield("processor OnEnd", p)
+	}
+	p.ends++
+	p.l.ev = append(p.l.ev, p.id+".OnEnd")
+}
 func (p *c15Proc) Shutdown(context.Context) error {
 	p.shuts++
 	p.l.ev = append(p.l.ev, p.id+".Shutdown")
@@ -67,7 +74,9 @@ func (e *c15Exp) Shutdown(context.Context) error {
 	return nil
 }
 
-var c15Ops = []string{"Reg1", "Reg2", "Unreg1", "Unreg2", "UnregNever", "SpanOld", "SpanNew", "Flush", "Shutdown", "ShutdownC"}
+// SpanOld: tracer obtained before everything else; SpanNew: tp.Tracer("new") now; SpanReget:
+// tp.Tracer("old") asked for again now (a scope the provider has handed out before)
+var c15Ops = []string{"Reg1", "Reg2", "Unreg1", "Unreg2", "UnregNever", "SpanOld", "SpanNew", "SpanReget", "Flush", "Shutdown", "ShutdownC"}
 var c15Variants = []string{"rec", "simple(E)", "simple(nil)", "batch(E)", "batch(nil)"}
 
 // c15Seq runs one operation sequence; failures are reported through x.Fail.
@@ -151,12 +160,17 @@ func c15Seq(variant string, ops []string) func(x *sched.Exec) {
 				} else if len(l.ev) != before {
 					x.Fail("C15|unregister-of-non-member-has-effects", "UnregisterSpanProcessor of a processor that is not registered caused %v (%s)", l.ev[before:], where(i))
 				}
-			case "SpanOld", "SpanNew":
+			case "SpanOld", "SpanNew", "SpanReget":
 				tr := old
 				if op == "SpanNew" {
 					tr = tp.Tracer("new")
+				} else if op == "SpanReget" {
+					tr = tp.Tracer("old")
 				}
 				_, sp := tr.Start(context.Background(), "s")
+				if shutOK && op != "SpanOld" && sp.IsRecording() {
+					x.Fail("C15|tracer-handed-out-after-shutdown-is-not-a-no-op", "%s: a tracer obtained from the provider after Shutdown had returned nil starts recording spans (%s)", op, where(i))
+				}
 				sp.End()
 				totalSpans++
 				got := l.ev[before:]
@@ -350,6 +364,14 @@ func c15ConcBody(sc c15Conc, res *string) func(x *sched.Exec) {
 			}
 		}
 		tp := NewTracerProvider(WithSampler(AlwaysSample()), WithSpanProcessor(p1))
+		// variant rec3: two more processors that stay registered throughout; every ended span must
+		// reach each of them exactly once whatever happens to p1 meanwhile
+		p3 := &c15Proc{id: "p3", l: l, yield: true}
+		if sc.variant == "rec3" {
+			rec1.yield, p2.yield = true, true
+			tp.RegisterSpanProcessor(p2)
+			tp.RegisterSpanProcessor(p3)
+		}
 		tr := tp.Tracer("t")
 		var pre []interface{ End() }
 		for _, ops := range sc.threads {
@@ -406,8 +428,21 @@ func c15ConcBody(sc c15Conc, res *string) func(x *sched.Exec) {
 			nilShutdowns += o.nilSD
 		}
 		n1 := rec1.shuts
-		if sc.variant != "rec" {
+		if sc.variant != "rec" && sc.variant != "rec3" {
 			n1 = exp.shuts
+		}
+		if sc.variant == "rec3" {
+			ended := 0
+			for _, ops := range sc.threads {
+				for _, op := range ops {
+					if op == "End" || op == "Span" {
+						ended++
+					}
+				}
+			}
+			if p2.ends != ended || p3.ends != ended || rec1.ends > ended {
+				x.Fail("C15|registered-processor-missed-or-repeated-a-span|concurrent", "%d spans ended while p2 and p3 stayed registered and p1 was being unregistered: OnEnd calls p1=%d p2=%d p3=%d", ended, rec1.ends, p2.ends, p3.ends)
+			}
 		}
 		if n1 > 1 || p2.shuts > 1 {
 			x.Fail("C15|shut-down-more-than-once|concurrent", "shutdown counts p1=%d p2=%d", n1, p2.shuts)
@@ -437,6 +472,7 @@ func c15ConcJobs(thorough bool) []c15Conc {
 		{2, 0, "X3-register-end", "rec", [][]string{{"Reg2"}, {"End"}, {"Shutdown"}}, false},
 		{2, 0, "X4-blocking-batch-end-end-shutdown", "batch(E)", [][]string{{"End"}, {"End"}, {"Shutdown"}}, true},
 		{1, 1, "X5-batch-shutdown-unreg", "batch(E)", [][]string{{"Shutdown"}, {"Unreg1"}, {"End"}}, false},
+		{2, 0, "X8-unreg-first-of-three-during-end", "rec3", [][]string{{"Unreg1"}, {"End"}, {"Span"}}, false},
 	}
 	if thorough {
 		js = append(js,
